@@ -27,5 +27,11 @@ for pid in sys.argv[1:]:
                     print(f"WARNING {pid} {e['id']}: commit {e['commit']} ({subj[:60]}) not found on main")
             kf["findings"].append(e)
         os.remove(staged)
+# keep every recorded fix commit pointing at /repo's main (commits may have been rebased): remap by subject
+for e in kf["findings"]:
+    if e.get("commit"):
+        subj = git("show", "-s", "--format=%s", e["commit"])
+        if subj in main_log and main_log[subj] != e["commit"]:
+            e["commit"] = main_log[subj]
 json.dump(kf, open(kf_path, "w"), indent=1)
 subprocess.run([sys.executable, os.path.join(ROOT, "tools", "genmanifest.py")])
